@@ -66,8 +66,8 @@ class C13World(World):
             "a pool of argument tensors of six storage kinds, with train()/eval(), rejected calls, interrupts at a seeded line "
             "inside nflows frames and crash+restart; after every op: every pooled tensor and its base storage has the same bytes "
             "and _version, in evaluation mode the state_dict is bit-identical, in training mode only documented statistics "
-            "changed, repeated call signatures return bit-identical results, and a requires_grad input gives the same bits as "
-            "the plain one. Non-trivial iff >= 2 successful calls with a repeated signature or a non-plain storage kind; "
+            "changed, and repeated signatures of the deterministic calls (forward, inverse, log_prob, transform_to_noise) return "
+            "bit-identical results under any RNG state. Non-trivial iff >= 2 successful calls with a repeated signature or a non-plain storage kind; "
             "distinct = distinct (model label, op/call-kind sequence) among those.")
     REAL = ["every nflows class in the zoo (working tree of $VERIF_REPO)", "torch autograd version counters, state_dict, global RNG",
             "UMNN (third party, reached through the UMNN transforms)"]
@@ -77,7 +77,7 @@ class C13World(World):
               "which exception a rejected call raises is not judged (C17/C18)"]
     EXPECTED_PROBES = ["view_argument_with_live_base", "tensor_shared_between_clients", "output_fed_back_as_input",
                        "training_pass_changed_documented_statistics", "interrupt_fired_inside_call", "sample_with_context_and_batch_size",
-                       "repeat_compared_bitwise", "requires_grad_variant_compared", "rejected_call", "expanded_argument", "noncontiguous_argument"]
+                       "repeat_compared_bitwise", "rejected_call", "expanded_argument", "noncontiguous_argument"]
 
     # ------------------------------------------------------------ config
     @classmethod
@@ -383,7 +383,7 @@ class C13World(World):
         x, ctx, keys = self._args(op)
         training = bool(root.training)
         before = _sd(root)
-        init_before = [bool(m.initialized) for _, m in self.actnorms]
+        init_before = [bool(getattr(m, "initialized", False)) for _, m in self.actnorms]
         k = op.get("interrupt") if self.cfg["faulty"] else None
         n = int(op.get("n", 2))
         bs = op.get("batch_size")
@@ -431,7 +431,8 @@ class C13World(World):
             allowed = set(self.allowed)
             for (pre, mod), was in zip(self.actnorms, init_before):
                 if not was:
-                    allowed.update({pre + "log_scale", pre + "shift", pre + "initialized"})
+                    # the documented data-dependent initialisation sets ActNorm's own parameters once
+                    allowed.update(pre + n for n, _ in mod.named_parameters(recurse=False))
             extra = [kk for kk in changed if kk not in allowed]
             if extra:
                 raise Violation("undocumented_state_changed_in_training", "%s changed %s" % (fn, extra[:6]))
@@ -474,7 +475,9 @@ class C13World(World):
             if fn in ("forward", "inverse", "log_prob", "transform_to_noise"):
                 sig.pop("rng", None)     # deterministic calls: same bits under any RNG state
             skey = json.dumps(sig, sort_keys=True)
-            if "feedback" not in stores:
+            if "feedback" not in stores and fn not in ("sample", "sample_and_log_prob"):
+                # sampling calls are exempt: the property says "up to sampling randomness", and a library is free to
+                # draw from a generator of its own instead of the global one
                 if skey in self.epoch:
                     self.repeat += 1
                     self.probes["repeat_compared_bitwise"] += 1
@@ -483,20 +486,3 @@ class C13World(World):
                         raise Violation("repeated_call_differs", "%s: same arguments and RNG state, different bits" % fn)
                 else:
                     self.epoch[skey] = rb
-            # ---- invariant 2: requires_grad variant gives the same bits as the plain one
-            vsig = json.loads(skey)
-            vstores = []
-            for a in ("x", "ctx"):
-                if isinstance(vsig.get(a), dict):
-                    vstores.append(vsig[a].pop("store"))
-            vsig.pop("grad", None)
-            vkey = json.dumps(vsig, sort_keys=True)
-            if all(s in ("plain", "grad") for s in vstores):
-                cls_ = "grad" if "grad" in vstores else "plain"
-                slot = self.diff.setdefault(vkey, {})
-                slot.setdefault(cls_, rb)
-                if "plain" in slot and "grad" in slot:
-                    self.comparisons += 1
-                    self.probes["requires_grad_variant_compared"] += 1
-                    if slot["plain"] != slot["grad"]:
-                        raise Violation("requires_grad_input_changes_result", "%s: plain and requires_grad inputs give different bits" % fn)
